@@ -31,6 +31,16 @@ class _BlockRewriter(ast.NodeTransformer):
         self.in_sample = old
         return node
 
+    def visit_Constant(self, node):
+        # pool branch of NautilusBound.sample: at least 10000 points per
+        # call -> a small number of rows
+        if self.in_sample and node.value == 10000 and \
+                isinstance(node.value, int):
+            self.rewrites.append((node.lineno, node.value))
+            return ast.copy_location(
+                ast.Name(id='_SYMX_POOLMIN', ctx=ast.Load()), node)
+        return node
+
     def visit_Assign(self, node):
         if (self.in_sample and len(node.targets) == 1 and
                 isinstance(node.targets[0], ast.Name) and
@@ -40,6 +50,8 @@ class _BlockRewriter(ast.NodeTransformer):
             self.rewrites.append((node.lineno, node.value.value))
             node.value = ast.copy_location(
                 ast.Name(id='_SYMX_BLOCK', ctx=ast.Load()), node.value)
+            return node
+        self.generic_visit(node)
         return node
 
 
@@ -103,6 +115,7 @@ def load(pkgname, env, block=2):
         ast.fix_missing_locations(tree)
         rewrites.extend((m.__file__, ln, v) for ln, v in rw.rewrites)
         code = compile(tree, m.__file__, 'exec')
+        m.__dict__['_SYMX_POOLMIN'] = 1
         m.__dict__['_SYMX_BLOCK'] = block.get(_leaf(mod), block.get(
             '*', 2)) if isinstance(block, dict) else block
         exec(code, m.__dict__)
